@@ -20,7 +20,7 @@ pub fn prop() -> Prop {
         rule: "complete enumeration of unordered side descriptions (each of aes128/aes256/chacha20 absent or present with a speed from the grid, plain flag) \
                squared; inside each case ALL orderings of both lists x both initiators are run as real handshakes and must agree with each other and with the \
                reference (plain iff both flags; else some cipher maximising the slower side's speed over the common set; clean failure iff no common cipher); \
-               plus every single-field edit of the cipher list inside a genuine ping. non-trivial = at least one common cipher or both plain",
+               the same order structures at five other magnitudes (speed_magnitudes); plus every single-field edit of the cipher list inside a genuine ping. non-trivial = at least one common cipher or both plain",
         run,
         replay,
     }
